@@ -1,12 +1,523 @@
-//! Proof alterations (C04) and structurally arbitrary proofs (C09). Filled in with W2.
+//! Proof alterations and forgeries (C04) and structurally arbitrary proofs (C09).
+
+use crate::exec;
+use crate::world::{Req, Res, World};
+use ed25519_dalek::Signer;
+use hypercore::{DataBlock, DataHash, DataSeek, DataUpgrade, Node, Proof};
 use serde::{Deserialize, Serialize};
+
+#[derive(Clone, Copy, Debug, Serialize, Deserialize, PartialEq, Eq)]
+pub enum Sec {
+    Block,
+    Hash,
+    Seek,
+    Upgrade,
+    Additional,
+}
+pub const SECS: [Sec; 5] = [Sec::Block, Sec::Hash, Sec::Seek, Sec::Upgrade, Sec::Additional];
 
 #[derive(Clone, Debug, Serialize, Deserialize, PartialEq)]
 pub enum Mutation {
     None,
+    FlipValue { bit: u32 },
+    FlipNodeHash { sec: Sec, idx: u32, bit: u32 },
+    FlipSignature { bit: u32 },
+    Fork { delta: i64 },
+    BlockIndex { delta: i64 },
+    HashIndex { delta: i64 },
+    SeekBytes { delta: i64 },
+    UpgradeStart { delta: i64 },
+    UpgradeLength { delta: i64 },
+    NodeIndex { sec: Sec, idx: u32, delta: i64 },
+    NodeSize { sec: Sec, idx: u32, delta: i64 },
+    DropNode { sec: Sec, idx: u32 },
+    DupNode { sec: Sec, idx: u32 },
+    SwapNodes { sec: Sec, idx: u32 },
+    InsertNode { sec: Sec, idx: u32 },
+    RemoveSection { sec: Sec },
+    /// replace the block value (same or different length); parents are recomputed by the verifier
+    SubstituteBlock { same_len: bool },
+    /// signature by another key over the true signable
+    ForeignSignature,
+    /// the writer's own signature for another length
+    StaleSignature,
+    /// a whole, self-consistent proof of the same shape from a different writer
+    ForeignWriter,
+    /// signature truncated / extended
+    SignatureLength { len: u32 },
+}
+
+pub fn node_parts(n: &Node) -> (u64, u64, Vec<u8>) {
+    use compact_encoding::CompactEncoding;
+    let sz = n.encoded_size().unwrap_or(0);
+    let mut buf = vec![0u8; sz];
+    if n.encode(&mut buf).is_err() {
+        // hash not 32 bytes: fall back to Debug parsing is not needed for honest nodes
+        return (0, 0, vec![]);
+    }
+    let (index, r1) = varint(&buf);
+    let (len, r2) = varint(&buf[r1..]);
+    (index, len, buf[r1 + r2..].to_vec())
+}
+
+fn varint(b: &[u8]) -> (u64, usize) {
+    match b[0] {
+        0xfd => (u16::from_le_bytes([b[1], b[2]]) as u64, 3),
+        0xfe => (u32::from_le_bytes([b[1], b[2], b[3], b[4]]) as u64, 5),
+        0xff => (u64::from_le_bytes(b[1..9].try_into().unwrap()), 9),
+        x => (x as u64, 1),
+    }
+}
+
+fn sec_nodes<'a>(p: &'a mut Proof, sec: Sec) -> Option<&'a mut Vec<Node>> {
+    match sec {
+        Sec::Block => p.block.as_mut().map(|b| &mut b.nodes),
+        Sec::Hash => p.hash.as_mut().map(|b| &mut b.nodes),
+        Sec::Seek => p.seek.as_mut().map(|b| &mut b.nodes),
+        Sec::Upgrade => p.upgrade.as_mut().map(|b| &mut b.nodes),
+        Sec::Additional => p.upgrade.as_mut().map(|b| &mut b.additional_nodes),
+    }
+}
+
+fn add(v: u64, d: i64) -> Option<u64> {
+    if d >= 0 {
+        v.checked_add(d as u64)
+    } else {
+        v.checked_sub((-d) as u64)
+    }
+}
+
+/// Apply a mutation; None = not applicable to this proof (nothing offered).
+pub fn mutate(honest: &Proof, m: &Mutation, w: &World) -> Option<Proof> {
+    let mut p = honest.clone();
+    match m {
+        Mutation::None => return None,
+        Mutation::FlipValue { bit } => {
+            let b = p.block.as_mut()?;
+            if b.value.is_empty() {
+                b.value.push(1);
+            } else {
+                let i = (*bit as usize / 8) % b.value.len();
+                b.value[i] ^= 1 << (bit % 8);
+            }
+        }
+        Mutation::FlipNodeHash { sec, idx, bit } => {
+            let v = sec_nodes(&mut p, *sec)?;
+            if v.is_empty() {
+                return None;
+            }
+            let i = *idx as usize % v.len();
+            let (index, len, mut hash) = node_parts(&v[i]);
+            if hash.len() != 32 {
+                return None;
+            }
+            hash[(*bit as usize / 8) % 32] ^= 1 << (bit % 8);
+            v[i] = Node::new(index, hash, len);
+        }
+        Mutation::FlipSignature { bit } => {
+            let u = p.upgrade.as_mut()?;
+            if u.signature.is_empty() {
+                return None;
+            }
+            let i = (*bit as usize / 8) % u.signature.len();
+            u.signature[i] ^= 1 << (bit % 8);
+        }
+        Mutation::SignatureLength { len } => {
+            let u = p.upgrade.as_mut()?;
+            if u.signature.len() == *len as usize {
+                return None;
+            }
+            u.signature.resize(*len as usize, 7);
+        }
+        Mutation::Fork { delta } => p.fork = add(p.fork, *delta)?,
+        Mutation::BlockIndex { delta } => {
+            let b = p.block.as_mut()?;
+            b.index = add(b.index, *delta)?;
+        }
+        Mutation::HashIndex { delta } => {
+            let b = p.hash.as_mut()?;
+            b.index = add(b.index, *delta)?;
+        }
+        Mutation::SeekBytes { delta } => {
+            let b = p.seek.as_mut()?;
+            b.bytes = add(b.bytes, *delta)?;
+        }
+        Mutation::UpgradeStart { delta } => {
+            let b = p.upgrade.as_mut()?;
+            b.start = add(b.start, *delta)?;
+        }
+        Mutation::UpgradeLength { delta } => {
+            let b = p.upgrade.as_mut()?;
+            b.length = add(b.length, *delta)?;
+        }
+        Mutation::NodeIndex { sec, idx, delta } => {
+            let v = sec_nodes(&mut p, *sec)?;
+            if v.is_empty() {
+                return None;
+            }
+            let i = *idx as usize % v.len();
+            let (index, len, hash) = node_parts(&v[i]);
+            v[i] = Node::new(add(index, *delta)?, hash, len);
+        }
+        Mutation::NodeSize { sec, idx, delta } => {
+            let is_seek = *sec == Sec::Seek;
+            let is_hash = *sec == Sec::Hash;
+            let v = sec_nodes(&mut p, *sec)?;
+            if v.is_empty() {
+                return None;
+            }
+            let i = *idx as usize % v.len();
+            // excluded by the property: size of the bottom node of a hash-only or seek section
+            // (the scheme authenticates only the sum with its sibling / the hash)
+            if (is_seek || is_hash) && i == 0 {
+                return None;
+            }
+            let (index, len, hash) = node_parts(&v[i]);
+            v[i] = Node::new(index, hash, add(len, *delta)?);
+        }
+        Mutation::DropNode { sec, idx } => {
+            let v = sec_nodes(&mut p, *sec)?;
+            if v.is_empty() {
+                return None;
+            }
+            let i = *idx as usize % v.len();
+            v.remove(i);
+        }
+        Mutation::DupNode { sec, idx } => {
+            let v = sec_nodes(&mut p, *sec)?;
+            if v.is_empty() {
+                return None;
+            }
+            let i = *idx as usize % v.len();
+            let n = v[i].clone();
+            v.insert(i, n);
+        }
+        Mutation::SwapNodes { sec, idx } => {
+            let v = sec_nodes(&mut p, *sec)?;
+            if v.len() < 2 {
+                return None;
+            }
+            let i = *idx as usize % (v.len() - 1);
+            v.swap(i, i + 1);
+        }
+        Mutation::InsertNode { sec, idx } => {
+            let extra = {
+                // some true node of the writer's tree
+                let j = (*idx as u64 * 2 + 1) % (2 * w.truth.len()).max(1);
+                match w.reftree.node(j).or_else(|| w.reftree.node(0)) {
+                    Some((h, s)) => Node::new(j, h.to_vec(), s),
+                    None => return None,
+                }
+            };
+            let v = sec_nodes(&mut p, *sec)?;
+            let i = *idx as usize % (v.len() + 1);
+            v.insert(i, extra);
+        }
+        Mutation::RemoveSection { sec } => match sec {
+            Sec::Block => {
+                p.block.take()?;
+            }
+            Sec::Hash => {
+                p.hash.take()?;
+            }
+            Sec::Seek => {
+                p.seek.take()?;
+            }
+            Sec::Upgrade => {
+                p.upgrade.take()?;
+            }
+            Sec::Additional => {
+                let u = p.upgrade.as_mut()?;
+                if u.additional_nodes.is_empty() {
+                    return None;
+                }
+                u.additional_nodes.clear();
+            }
+        },
+        Mutation::SubstituteBlock { same_len } => {
+            let b = p.block.as_mut()?;
+            if *same_len {
+                if b.value.is_empty() {
+                    return None;
+                }
+                for x in b.value.iter_mut() {
+                    *x = x.wrapping_add(0x5b) | 1;
+                }
+            } else {
+                b.value.extend_from_slice(b"forged");
+            }
+        }
+        Mutation::ForeignSignature => {
+            let other = crate::world::key_from_seed(w.cfg.key_seed ^ 0xF0F0_F0F0);
+            let u = p.upgrade.as_mut()?;
+            let len = w.truth.len();
+            let signable = w.reftree.signable(len, 0);
+            u.signature = other.sign(&signable).to_bytes().to_vec();
+        }
+        Mutation::StaleSignature => {
+            let u = p.upgrade.as_mut()?;
+            // the writer's genuine signature over a different length
+            let len = w.truth.len();
+            let other_len = if len > 1 { len - 1 } else { return None };
+            let signable = w.reftree.signable(other_len, 0);
+            u.signature = w.key.sign(&signable).to_bytes().to_vec();
+        }
+        Mutation::ForeignWriter => return None, // built separately (needs a second core)
+    }
+    if &p == honest {
+        return None;
+    }
+    Some(p)
+}
+
+/// All single-field alterations applicable to a proof (the systematic set of C04).
+pub fn all_mutations(p: &Proof) -> Vec<Mutation> {
+    let mut v = vec![];
+    if let Some(b) = &p.block {
+        let bits = (b.value.len() as u32 * 8).max(1);
+        for bit in [0u32, 7, bits / 2, bits.saturating_sub(1)] {
+            v.push(Mutation::FlipValue { bit });
+        }
+        v.push(Mutation::SubstituteBlock { same_len: true });
+        v.push(Mutation::SubstituteBlock { same_len: false });
+        v.push(Mutation::BlockIndex { delta: 1 });
+        v.push(Mutation::BlockIndex { delta: -1 });
+    }
+    if p.hash.is_some() {
+        v.push(Mutation::HashIndex { delta: 1 });
+        v.push(Mutation::HashIndex { delta: -1 });
+        v.push(Mutation::HashIndex { delta: 2 });
+    }
+    if p.seek.is_some() {
+        v.push(Mutation::SeekBytes { delta: 1 });
+        v.push(Mutation::SeekBytes { delta: -1 });
+    }
+    if p.upgrade.is_some() {
+        for d in [1i64, -1] {
+            v.push(Mutation::UpgradeStart { delta: d });
+            v.push(Mutation::UpgradeLength { delta: d });
+        }
+        for bit in [0u32, 255, 256, 511] {
+            v.push(Mutation::FlipSignature { bit });
+        }
+        v.push(Mutation::ForeignSignature);
+        v.push(Mutation::StaleSignature);
+        v.push(Mutation::ForeignWriter);
+        v.push(Mutation::SignatureLength { len: 0 });
+        v.push(Mutation::SignatureLength { len: 63 });
+        v.push(Mutation::SignatureLength { len: 65 });
+    }
+    v.push(Mutation::Fork { delta: 1 });
+    for sec in SECS {
+        let n = match sec {
+            Sec::Block => p.block.as_ref().map(|b| b.nodes.len()),
+            Sec::Hash => p.hash.as_ref().map(|b| b.nodes.len()),
+            Sec::Seek => p.seek.as_ref().map(|b| b.nodes.len()),
+            Sec::Upgrade => p.upgrade.as_ref().map(|b| b.nodes.len()),
+            Sec::Additional => p.upgrade.as_ref().map(|b| b.additional_nodes.len()),
+        };
+        let Some(n) = n else { continue };
+        v.push(Mutation::RemoveSection { sec });
+        v.push(Mutation::InsertNode { sec, idx: 0 });
+        v.push(Mutation::InsertNode { sec, idx: n as u32 });
+        for idx in 0..n as u32 {
+            v.push(Mutation::FlipNodeHash { sec, idx, bit: 3 });
+            v.push(Mutation::FlipNodeHash { sec, idx, bit: 250 });
+            v.push(Mutation::NodeIndex { sec, idx, delta: 1 });
+            v.push(Mutation::NodeIndex { sec, idx, delta: -1 });
+            v.push(Mutation::NodeIndex { sec, idx, delta: 2 });
+            v.push(Mutation::NodeSize { sec, idx, delta: 1 });
+            v.push(Mutation::NodeSize { sec, idx, delta: -1 });
+            v.push(Mutation::DropNode { sec, idx });
+            v.push(Mutation::DupNode { sec, idx });
+            if idx + 1 < n as u32 {
+                v.push(Mutation::SwapNodes { sec, idx });
+            }
+        }
+    }
+    v
+}
+
+/// A self-consistent proof for the same concrete request from a different writer (other key,
+/// other block contents, same sizes and count).
+fn foreign_proof(w: &World, c: &crate::repl::Concrete, nodes: u64) -> Option<Proof> {
+    let other = crate::world::key_from_seed(w.cfg.key_seed ^ 0x0BAD_C0DE);
+    let disk = crate::disk::Disk::new();
+    let kp = hypercore::PartialKeypair { public: other.verifying_key(), secret: Some(other) };
+    let blocks: Vec<Vec<u8>> = w
+        .truth
+        .blocks
+        .iter()
+        .map(|b| b.iter().map(|x| x.wrapping_add(0x11) | 1).collect())
+        .collect();
+    let (rb, rh, rs, ru) = crate::world::mk_request(
+        c.block.map(|i| (i, nodes)),
+        c.hash.map(|j| (j, nodes)),
+        c.seek,
+        c.upgrade,
+    );
+    let g = exec::run(async {
+        let mut core = crate::world::open_core(&disk, Some(kp), crate::world::CacheMode::Off).await?;
+        if !blocks.is_empty() {
+            core.append_batch(&blocks).await?;
+        }
+        core.create_proof(rb, rh, rs, ru).await
+    });
+    match Res::from(g) {
+        Res::Ok(Some(p)) => Some(p),
+        _ => None,
+    }
+}
+
+/// C04 step: honest proof for `req`, altered, offered to replica n *before* the honest one.
+pub fn do_tamper(w: &mut World, n: usize, req: &Req, m: &Mutation) {
+    let Some(out) = crate::repl::request_and_create(w, n, req) else { return };
+    let Some(honest) = out.proof else { return };
+    let forged = match m {
+        Mutation::ForeignWriter => foreign_proof(w, &out.concrete, out.nodes),
+        other => mutate(&honest, other, w),
+    };
+    if let Some(f) = forged {
+        w.stats.tampered += 1;
+        let info_before = w.nodes[n].core.as_ref().map(|c| c.info());
+        match crate::repl::offer_untrusted(w, n, &f, &format!("{m:?}"), "C04") {
+            Some(true) => {
+                w.stats.tampered_accepted += 1;
+                w.stats.probe("tampered_accepted");
+                // accepted: the replica must still be truthful: (length, byte_length) is a state
+                // the writer signed, every held block equals the writer's
+                if let Some(core) = w.nodes[n].core.as_ref() {
+                    let info = core.info();
+                    let st = (info.length, info.byte_length);
+                    let signed = st == (0, 0)
+                        || w.truth.signed.contains(&st)
+                        || info_before.as_ref().map(|b| (b.length, b.byte_length)) == Some(st);
+                    if !signed {
+                        w.viol(
+                            "C04.unsigned-state",
+                            format!("after accepting altered proof ({m:?}) the replica reports length {} byte_length {}, a state the writer never signed", st.0, st.1),
+                        );
+                    } else {
+                        w.nodes[n].model.length = st.0;
+                        w.nodes[n].model.byte_length = st.1;
+                    }
+                }
+                if w.aborted.is_none() && w.nodes[n].core.is_some() {
+                    w.scan_and_judge_as(n, &format!("after accepted altered proof {m:?}"), "C04");
+                }
+            }
+            Some(false) => {
+                w.stats.tampered_refused += 1;
+                // observations unchanged
+                if w.aborted.is_none() && w.nodes[n].core.is_some() {
+                    w.scan_and_judge_as(n, &format!("after refused altered proof {m:?}"), "C04");
+                }
+            }
+            None => return,
+        }
+    }
+    if w.aborted.is_some() || w.nodes[n].core.is_none() {
+        return;
+    }
+    // the honest proof that follows is still accepted (C04: honest replication can complete)
+    let before = w.viols.len();
+    let ok = crate::repl::apply_honest(w, n, &honest, &out.concrete);
+    if !ok {
+        // re-tag: acceptance failure after an alteration is C04's concern
+        for v in w.viols[before..].iter_mut() {
+            if v.clause == "C03.accept" {
+                v.clause = "C04.honest-after".into();
+            }
+        }
+    }
+}
+
+// ---------------------------------------------------------------------------------------------
+// Structurally arbitrary proofs (C09)
+
+#[derive(Clone, Debug, Serialize, Deserialize, PartialEq, Default)]
+pub struct RawNode {
+    pub index: u64,
+    pub size: u64,
+    /// 0 = the true hash of that node if the writer's tree has it, 1 = pseudo-random, 2 = zeros, 3 = short (not 32 bytes)
+    pub kind: u8,
+    pub salt: u64,
+}
+
+#[derive(Clone, Debug, Serialize, Deserialize, PartialEq, Default)]
+pub struct RawUpgrade {
+    pub start: u64,
+    pub length: u64,
+    pub nodes: Vec<RawNode>,
+    pub additional: Vec<RawNode>,
+    /// 0 = writer's valid signature for its current length, 1 = random 64 bytes, 2 = empty, 3 = 10 bytes
+    pub sig: u8,
 }
 
 #[derive(Clone, Debug, Serialize, Deserialize, PartialEq, Default)]
 pub struct RawProofSpec {
     pub fork: u64,
+    pub block: Option<(u64, u32, Vec<RawNode>)>,
+    pub hash: Option<(u64, Vec<RawNode>)>,
+    pub seek: Option<(u64, Vec<RawNode>)>,
+    pub upgrade: Option<RawUpgrade>,
+}
+
+fn raw_node(w: &World, r: &RawNode) -> Node {
+    let hash: Vec<u8> = match r.kind {
+        0 => match w.reftree.node(r.index) {
+            Some((h, _)) => h.to_vec(),
+            None => crate::rng::Rng::new(r.salt, &[r.index]).bytes(32),
+        },
+        1 => crate::rng::Rng::new(r.salt, &[r.index, 1]).bytes(32),
+        2 => vec![0u8; 32],
+        _ => vec![1u8; 7],
+    };
+    let size = if r.kind == 0 {
+        w.reftree.node(r.index).map(|x| x.1).unwrap_or(r.size)
+    } else {
+        r.size
+    };
+    Node::new(r.index, hash, size)
+}
+
+pub fn build_raw(w: &World, s: &RawProofSpec) -> Proof {
+    Proof {
+        fork: s.fork,
+        block: s.block.as_ref().map(|(index, vlen, nodes)| DataBlock {
+            index: *index,
+            value: match w.truth.blocks.get(*index as usize) {
+                Some(b) if *vlen == u32::MAX => b.clone(),
+                _ => vec![0xabu8; (*vlen as usize).min(1 << 16)],
+            },
+            nodes: nodes.iter().map(|n| raw_node(w, n)).collect(),
+        }),
+        hash: s.hash.as_ref().map(|(index, nodes)| DataHash {
+            index: *index,
+            nodes: nodes.iter().map(|n| raw_node(w, n)).collect(),
+        }),
+        seek: s.seek.as_ref().map(|(bytes, nodes)| DataSeek {
+            bytes: *bytes,
+            nodes: nodes.iter().map(|n| raw_node(w, n)).collect(),
+        }),
+        upgrade: s.upgrade.as_ref().map(|u| DataUpgrade {
+            start: u.start,
+            length: u.length,
+            nodes: u.nodes.iter().map(|n| raw_node(w, n)).collect(),
+            additional_nodes: u.additional.iter().map(|n| raw_node(w, n)).collect(),
+            signature: match u.sig {
+                0 => {
+                    let len = w.truth.len();
+                    if len == 0 {
+                        vec![0u8; 64]
+                    } else {
+                        w.key.sign(&w.reftree.signable(len, 0)).to_bytes().to_vec()
+                    }
+                }
+                1 => crate::rng::Rng::new(u.start ^ u.length, &[9]).bytes(64),
+                2 => vec![],
+                _ => vec![3u8; 10],
+            },
+        }),
+    }
 }
